@@ -220,11 +220,19 @@ nni_msgq_aio_put(nni_msgq *mq, nni_aio *aio)
 {
 	nni_mtx_lock(&mq->mq_lock);
 
-	// If this is an instantaneous poll operation, and the queue has
-	// no room, nobody is waiting to receive, then report NNG_ETIMEDOUT.
-	if (!nni_aio_start(aio, nni_msgq_cancel, mq)) {
-		nni_mtx_unlock(&mq->mq_lock);
-		return;
+	// We only start the aio if it has to wait, which is the case if
+	// earlier writers are still waiting, or if the queue has no room
+	// and nobody is waiting to receive.  If this is an instantaneous
+	// poll operation, then starting it reports NNG_ETIMEDOUT.
+	// Otherwise running the queue below completes the aio (and takes
+	// it off the list again) before we drop the lock.
+	if ((!nni_list_empty(&mq->mq_aio_putq)) ||
+	    ((mq->mq_len >= mq->mq_cap) &&
+	        nni_list_empty(&mq->mq_aio_getq))) {
+		if (!nni_aio_start(aio, nni_msgq_cancel, mq)) {
+			nni_mtx_unlock(&mq->mq_lock);
+			return;
+		}
 	}
 	nni_aio_list_append(&mq->mq_aio_putq, aio);
 	nni_msgq_run_putq(mq);
@@ -237,11 +245,18 @@ void
 nni_msgq_aio_get(nni_msgq *mq, nni_aio *aio)
 {
 	nni_mtx_lock(&mq->mq_lock);
-	if (!nni_aio_start(aio, nni_msgq_cancel, mq)) {
-		nni_mtx_unlock(&mq->mq_lock);
-		return;
-	}
 
+	// As above, we only start the aio if it has to wait: earlier
+	// readers are still waiting, or nothing is queued and no writer
+	// is waiting.  Otherwise an instantaneous poll operation would
+	// report NNG_ETIMEDOUT even though a message is available.
+	if ((!nni_list_empty(&mq->mq_aio_getq)) ||
+	    ((mq->mq_len == 0) && nni_list_empty(&mq->mq_aio_putq))) {
+		if (!nni_aio_start(aio, nni_msgq_cancel, mq)) {
+			nni_mtx_unlock(&mq->mq_lock);
+			return;
+		}
+	}
 	nni_aio_list_append(&mq->mq_aio_getq, aio);
 	nni_msgq_run_getq(mq);
 	nni_msgq_run_notify(mq);
